@@ -625,3 +625,121 @@ func latchPeek(f *ssa.Function) bool {
 	})
 	return found && pure
 }
+
+// ---------------------------------------------------------------------------
+// R15.10: the word produced by a source read is used only once the read is
+// known to have succeeded. Between the call and the test of its error nothing
+// looks at the value: a decision taken on the word of a failed read (a
+// checksum comparison, a size test) replaces the source's error by a verdict
+// about data that was never read.
+
+// resultIndexOf: w is result #i of call - the Extract itself, or the load of a
+// cell (named result, captured variable) assigned from that Extract right after
+// the call. -1 otherwise.
+func resultIndexOf(w ssa.Value, call *ssa.Call) int {
+	if ex, ok := w.(*ssa.Extract); ok && ex.Tuple == ssa.Value(call) {
+		return ex.Index
+	}
+	if ld, ok := w.(*ssa.UnOp); ok && ld.Op == token.MUL {
+		if refs := ld.X.Referrers(); refs != nil {
+			for _, r := range *refs {
+				if st, isS := r.(*ssa.Store); isS && st.Addr == ld.X && st.Block() == call.Block() {
+					if ex, isE := st.Val.(*ssa.Extract); isE && ex.Tuple == ssa.Value(call) {
+						return ex.Index
+					}
+				}
+			}
+		}
+	}
+	return -1
+}
+
+func ruleReadValueAfterCheck(c *Check, p *Program, rule string) {
+	n := 0
+	for _, fn := range readerSideFuncs(p) {
+		nf := 0
+		for _, ci := range callsIn(fn) {
+			call, isCall := ci.(*ssa.Call)
+			if !isCall || !isSourceRead32(staticCallee(ci)) {
+				continue
+			}
+			n++
+			nf++
+			c.Sites++
+			// where the word lives: the Extract and the cells / fields it is stored into
+			var val *ssa.Extract
+			for _, r := range *call.Referrers() {
+				if ex, ok := r.(*ssa.Extract); ok && ex.Index == 0 {
+					val = ex
+				}
+			}
+			if val == nil {
+				continue
+			}
+			homes := map[string]bool{}
+			cells := map[ssa.Value]bool{}
+			for _, r := range *val.Referrers() {
+				if st, ok := r.(*ssa.Store); ok && st.Val == ssa.Value(val) {
+					if lf := lastField(st.Addr); lf != "" {
+						homes[lf] = true
+					} else {
+						cells[st.Addr] = true
+					}
+				}
+			}
+			isUse := func(in ssa.Instruction) bool {
+				switch x := in.(type) {
+				case *ssa.Store, *ssa.Extract, *ssa.DebugRef:
+					return false
+				case *ssa.UnOp:
+					if x.Op == token.MUL {
+						if cells[x.X] {
+							return true
+						}
+						if lf := lastField(x.X); lf != "" && homes[lf] {
+							return true
+						}
+					}
+				}
+				for _, op := range in.Operands(nil) {
+					if *op == ssa.Value(val) {
+						return true
+					}
+				}
+				return false
+			}
+			// blocks reachable from the call while the error may still be non-nil
+			bad := ""
+			seen := map[*ssa.BasicBlock]bool{}
+			var walk func(b *ssa.BasicBlock, from int)
+			walk = func(b *ssa.BasicBlock, from int) {
+				if from == 0 {
+					if seen[b] {
+						return
+					}
+					seen[b] = true
+				}
+				for _, in := range b.Instrs[from:] {
+					if bad == "" && isUse(in) {
+						bad = p.InstrPos(in)
+					}
+				}
+				ifi, isIf := b.Instrs[len(b.Instrs)-1].(*ssa.If)
+				for k, s := range b.Succs {
+					if isIf && len(b.Succs) == 2 {
+						a := atomOf(ifi.Cond, k == 0)
+						if a.Kind == "errnil" && a.Val && resultIndexOf(a.V, call) == 1 {
+							continue // the read succeeded on this edge
+						}
+					}
+					walk(s, 0)
+				}
+			}
+			walk(call.Block(), idxOf(call)+1)
+			c.Cond(bad == "", rule, shortFn(fn)+"#word-used-after-check:"+shortFn(staticCallee(ci))+fmt.Sprintf("#%d", nf), p.InstrPos(ci), "the word returned by a source read is looked at only on paths where the read's error is known to be nil", "no use between the call and the error test", "the word is used at "+bad+" while the read may have failed: the caller is told something about bytes that were never read (e.g. a checksum mismatch) instead of the source's error")
+		}
+	}
+	if n < 4 {
+		c.Fail(rule, "reader-side#word-reads", "", "the 32-bit source reads of the reading path are resolved", fmt.Sprintf("only %d calls of a 32-bit source-read helper found (confirmed by reading: magic, skippable length, block size, block checksum, content checksum)", n))
+	}
+}
